@@ -15,6 +15,9 @@ FR == F \cup {PInf}
 FI == F \cup {NInf, PInf}
 FSeq == CHOOSE s \in [1..5 -> F] : \A i \in 1..4 : Lt(s[i], s[i+1])
 
+\* a long table with a vertical edge at every integer: pair i of n is (i \div 2, ((3 i) mod 5) / 4)
+Stair(n) == [j \in 1..(2 * n) |-> LET i == (j + 1) \div 2 IN IF j % 2 = 1 THEN I(i \div 2) ELSE Q((3 * i) % 5, 4)]
+
 Params(k) ==
   CASE k = "Triangle"  -> { <<a,b,c>> : a \in FL, b \in F, c \in FR } 
     [] k = "Trapezoid" -> { <<a,b,c,d>> : a \in FL, b \in F, c \in F, d \in FR }
@@ -34,6 +37,7 @@ Params(k) ==
                             <<FSeq[1], One, FSeq[3], Q(1,4), FSeq[4], Q(3,4), FSeq[5], Zero>>,
                             <<FSeq[2], Zero, FSeq[4], One>>,
                             <<FSeq[1], Q(3,4), FSeq[5], Q(1,4)>> }    \* (a single pair is not an interpolation table)
+                          \cup (IF Palette = "dyadic" THEN { Stair(96), Stair(70) } ELSE {})
     [] k = "Constant"  -> { <<v>> : v \in {Q(-1,2), Zero, Q(3,4)} }
 Valid(k, p) ==
   CASE k = "Triangle"  -> Le(p[1], p[2]) /\ Le(p[2], p[3])
